@@ -42,7 +42,9 @@ type fail struct{ sig, what string }
 type caseInfo struct {
 	calls, scripts        int64
 	validated, nontrivial bool
-	outside               bool // outside the Go function's / documentation's domain
+	outside               bool // the documentation does not determine the result
+	outOfDomain           bool // the underlying Go function panics: outside the claim
+	strict                bool // convertible wrong-typed argument rejected with a type error
 	class                 string
 }
 
@@ -197,12 +199,18 @@ func judge(s *Spec, args []Arg, o outc, via string) (fails []fail, info caseInfo
 	if o.kind == "internal" {
 		return []fail{{"internal/script-does-not-compile", render(s, args) + ": " + o.text}}, info
 	}
-	if o.kind == "panic" {
-		info.class = s.Mod + "/panic"
-		add("panic", "a panic reached the caller of the module function")
-		return
+	panicked := func() bool {
+		if o.kind == "panic" {
+			info.class = s.Mod + "/panic"
+			add("panic", "a panic reached the caller of the module function on an input inside the domain of the underlying Go function")
+			return true
+		}
+		return false
 	}
 	if s.IsConst {
+		if panicked() {
+			return
+		}
 		info.validated, info.nontrivial = true, true
 		info.class = s.Mod + "/const"
 		if snapC(o.obj) != snapC(s.Const) {
@@ -212,6 +220,9 @@ func judge(s *Spec, args []Arg, o outc, via string) (fails []fail, info caseInfo
 	}
 	n := len(args)
 	if n < s.minArity() || n > s.maxArity() {
+		if panicked() {
+			return
+		}
 		info.validated = true
 		info.class = s.Mod + "/arity/" + o.kind
 		if o.kind != "error" || !(errors.Is(o.err, tengo.ErrWrongNumArguments) ||
@@ -231,6 +242,9 @@ func judge(s *Spec, args []Arg, o outc, via string) (fails []fail, info caseInfo
 	}
 	switch worst {
 	case cNot:
+		if panicked() {
+			return
+		}
 		info.validated = true
 		info.class = s.Mod + "/not-convertible/" + o.kind
 		if o.kind != "error" {
@@ -238,6 +252,9 @@ func judge(s *Spec, args []Arg, o outc, via string) (fails []fail, info caseInfo
 		}
 		return
 	case cUnspec:
+		if panicked() {
+			return
+		}
 		info.class = s.Mod + "/conversion-unspecified/" + o.kind
 		return
 	}
@@ -246,9 +263,18 @@ func judge(s *Spec, args []Arg, o outc, via string) (fails []fail, info caseInfo
 		cat = "coerced"
 	}
 	r := callRef(s, vals)
+	if r.OutOfDomain {
+		// the Go function itself panics on these arguments: outside the claim
+		info.outOfDomain = true
+		info.class = s.Mod + "/" + cat + "/out-of-domain/" + o.kind
+		return
+	}
+	if panicked() {
+		return
+	}
 	if r.Undef {
 		info.outside = true
-		info.class = s.Mod + "/" + cat + "/outside-domain/" + o.kind
+		info.class = s.Mod + "/" + cat + "/doc-undetermined/" + o.kind
 		if r.Check != nil && o.kind == "value" {
 			if msg := r.Check(o.obj); msg != "" {
 				add("value-mismatch", msg)
@@ -261,7 +287,9 @@ func judge(s *Spec, args []Arg, o outc, via string) (fails []fail, info caseInfo
 		info.class = s.Mod + "/" + cat + "/rt-error"
 		var te tengo.ErrInvalidArgumentType
 		if worst == cConv && (errors.As(o.err, &te) || strings.Contains(o.err.Error(), "invalid type for argument")) {
-			add("wrong-type-rejected", "the argument is convertible to the documented parameter type (docs/runtime-types.md) and must be coerced")
+			// a wrong-typed but convertible argument may be rejected with a type error (strict parameter)
+			info.class = s.Mod + "/coerced/type-error"
+			info.strict = true
 		} else if r.Err {
 			add("error-mismatch", "the Go function returns an error here: an error VALUE is required, not a run-time error")
 		} else {
@@ -571,7 +599,14 @@ func main() {
 			r.Count("validated/"+c.Mod, 1)
 		}
 		if info.outside {
-			r.Count("outside-go-domain/"+c.Mod, 1)
+			r.Count("doc-undetermined/"+c.Mod, 1)
+		}
+		if info.outOfDomain {
+			r.Count("out-of-domain", 1)
+			r.Count("out-of-domain/"+c.Mod, 1)
+		}
+		if info.strict {
+			r.Count("convertible-argument-rejected-with-type-error/"+c.Mod+"."+c.Fn, 1)
 		}
 		r.Count("cases/"+c.Mod, 1)
 		r.Count("module-calls", info.calls)
@@ -636,11 +671,12 @@ func main() {
 	r.Set("script_subset", fmt.Sprintf("every k-th argument tuple of a function, k = ceil(tuples/%d); all arity, wrong-type and constant cases; all enum cases", scriptCap))
 
 	r.Assume("the name -> Go function table is written from docs/stdlib-*.md (the godoc sentences quoted there identify the function); the module tables in /repo/stdlib were not used for it")
-	r.Assume("coercion follows docs/runtime-types.md: a value of another type that the table converts to the parameter type must be accepted and coerced; 'X' (no conversion) must give a run-time error; function values are not in the table (no requirement but 'no panic'). The text of float/array/map/time/error -> string is the value's own String() (trusted; C10/C17)")
+	r.Assume("wrong-typed arguments (docs/runtime-types.md): a value the table converts to the parameter type may EITHER be rejected with a run-time type error (the stdlib docs do not promise coercion; strict: first parameter of format_bool/format_float/format_int/parse_bool/parse_float/parse_int) OR be coerced by the table, and then the result must be the Go function's result on the coerced value; a value with no conversion ('X') must give a run-time error; function values are not in the table (no requirement but 'no panic'). The text of float/array/map/time/error -> string is the value's own String() (trusted; C10/C17)")
 	r.Assume("pinned, documentation lists the parameter without saying it is optional: substr's upper (default len(s)), re_find/Regexp.find's count (first match only, still wrapped in an outer array), re_split/Regexp.split's count (default -1); pad_left/pad_right's pad_with and date's loc are documented as optional")
 	r.Assume("math: the documentation annotates '=> float' for is_inf, is_nan, signbit and ilogb while the prose says 'reports whether' / 'returns true' / 'as an integer': the result type of the Go function is used (bool, int)")
 	r.Assume("text.join: the documented parameter 'arr string' is read as an array of strings (prose: 'concatenates the elements of a'); base64/hex: encode(src) takes bytes, decode(s) a string (types are not annotated in the docs)")
-	r.Assume("outside the domain of the Go function (it panics: negative Repeat count, FormatInt base, FormatFloat bitSize, slice bounds of substr) or of the documentation (time_unix_nano outside 1678..2262, format_float with fmt not a single character, pad with a pad string that does not divide the gap, regexp groups that did not participate in a match) only 'no panic reaches the caller' is required")
+	r.Assume("inputs on which the underlying Go function itself panics (strings.Repeat negative count, strconv.FormatInt base outside 2..36, strconv.FormatFloat bitSize not 32/64, format_float with an empty fmt string, slice bounds of substr) are outside the claim ('within the domain where the underlying Go function is defined'): counted as out-of-domain, nothing is required, not even the absence of a panic")
+	r.Assume("where only the documentation leaves the result open (time_unix_nano outside 1678..2262, format_float with a multi-character fmt, pad_left/pad_right with a pad string that does not divide the gap or is empty, regexp groups that did not participate in a match) the result is not compared but 'no panic reaches the caller' is required")
 	r.Assume("times.date without a location and times.unix / to_local use time.Local of this process (TZ is fixed by the environment, the clock is not read); the zone database is whatever time.LoadLocation finds, for implementation and reference alike")
 	r.Assume("enum: iteration order of maps is unspecified, so results over maps are compared as 'one of' / multisets; results for an undocumented size/key/no-match are not compared")
 	r.Assume("in the script path a Go panic inside a module function is converted to a run-time error by Compiled.RunContext; panics are therefore detected in the direct-call path")
